@@ -54,3 +54,14 @@ Print Assumptions C01_no_double_minus_any_layout.
 Theorem C01_expression_output_reparses : forall c e o, Parens.R c e o -> Expr.can e = true -> Expr.parse (Expr.tokens o) = Some o.
 Proof. intros c e o H K. apply PrattProof.pratt_roundtrip. exact (ParensProof.R_can c e o H K). Qed.
 Print Assumptions C01_expression_output_reparses.
+
+(* (c) the semicolon rule of format_block, regenerated from src/formatters/block.rs on every run: the `;` between two
+   statements is kept whenever the next one begins with `(` and this one can end in an expression - the only place
+   where dropping it lets the parser read the two statements as one (or reject them) *)
+From SV Require FmAst Semicolon SemicolonProof.
+From SVgen Require SemiRule.
+Theorem C01_semicolon_kept_where_the_next_statement_would_be_absorbed : forall s n semi,
+  Semicolon.wf_stmt n = true -> Semicolon.open_ended s = true -> Semicolon.starts_with_paren n = true ->
+  SemiRule.check_stmt_requires_semicolon s (Some (n, semi)) = true.
+Proof. exact SemicolonProof.semicolon_kept_where_needed. Qed.
+Print Assumptions C01_semicolon_kept_where_the_next_statement_would_be_absorbed.
